@@ -6,6 +6,7 @@ import (
 	"iter"
 
 	art "github.com/Clement-Jean/go-art"
+	"golang.org/x/text/unicode/norm"
 
 	"verif/internal/engine"
 	"verif/internal/ev"
@@ -77,6 +78,66 @@ type c13run struct {
 	hist []string
 	dead bool
 	val  uint64
+	sess *engine.Session[[]byte] // read-only monitors attached to t and m (verifyContent)
+	qr   *rng.R                  // query generator of the attached monitors
+}
+
+// c13cfg: the sequence monitors run after buffers were scribbled over (Range and Prefix only
+// for kinds where C03/C04 apply; collation contents here are outside C04's scope).
+var c13cfg = &engine.Config{Prop: "C13", Mons: engine.MIter | engine.MExt | engine.MRange | engine.MPrefix, Queries: 6}
+
+func (x *c13run) attach(r *rng.R) {
+	x.qr = rng.New(r.U64(), 13)
+	x.sess = engine.Attach(x.tr.k, c13cfg, x.res, x.unit, x.t, x.m, func() []string {
+		h := x.hist
+		if len(h) > 300 {
+			h = append([]string{fmt.Sprintf("... %d operations elided ...", len(h)-300)}, h[len(h)-300:]...)
+		}
+		return append(append([]string{}, h...), "(buffers of all earlier calls overwritten by the caller; then the sequence queries below)")
+	})
+}
+
+// seqMonitors: after the caller reused its buffers every sequence method must still agree
+// with the model (a cached bound or extreme that aliases a caller buffer shows only here).
+func (x *c13run) seqMonitors() {
+	if x.dead || x.sess == nil {
+		return
+	}
+	s := x.sess
+	s.CheckIter()
+	if !s.Dead {
+		s.CheckExtremes(x.qr)
+	}
+	if !s.Dead && x.tr.k.HasRange {
+		if x.tr.k.Family == "alpha" && x.m.Len() > 0 {
+			// directed: open-ended range from a stored key, whole-content range
+			s.CheckRange(x.m.At(x.qr.Intn(x.m.Len())).Key, nil, "empty_end")
+			if !s.Dead {
+				s.CheckRange(x.m.At(0).Key, x.m.At(x.m.Len()-1).Key, "min_max")
+			}
+		}
+		if !s.Dead {
+			s.CheckRanges(x.qr)
+		}
+	}
+	if !s.Dead && x.tr.k.HasPrefix && !x.tr.coll {
+		s.CheckPrefixes(x.qr)
+	}
+	x.res.Inc("seq_monitor_rounds_after_scribble")
+	if s.Dead {
+		x.dead = true
+	}
+}
+
+// snapshot: clone of everything All() yields.
+func (x *c13run) snapshot() (ks [][]byte, vs []uint64, ok bool) {
+	ok = !x.guard("All", func() {
+		for k, v := range x.t.All() {
+			ks = append(ks, append([]byte{}, k...))
+			vs = append(vs, v)
+		}
+	})
+	return
 }
 
 func (x *c13run) fail(what, exp, obs string) {
@@ -123,6 +184,12 @@ func drainSeq(seq iter.Seq2[[]byte, uint64]) {
 // callWithCanary runs op with keys placed in canary arrays and compares the
 // whole arrays afterwards.
 func (x *c13run) callWithCanary(r *rng.R, what string, keys [][]byte, sameArray bool, op func(ks [][]byte)) {
+	x.callWithCanaryOpt(r, what, keys, sameArray, false, op)
+}
+
+// compareContent: (model-free) everything All() yields right after the call, before the
+// buffers are overwritten, must be what it yields afterwards.
+func (x *c13run) callWithCanaryOpt(r *rng.R, what string, keys [][]byte, sameArray, compareContent bool, op func(ks [][]byte)) {
 	var arrs, ks [][]byte
 	if sameArray && len(keys) == 2 {
 		// both bounds are sub-slices of one array
@@ -162,10 +229,34 @@ func (x *c13run) callWithCanary(r *rng.R, what string, keys [][]byte, sameArray 
 			return
 		}
 	}
-	// scribble: after the call returned the buffers are the caller's again
+	var k0 [][]byte
+	var v0 []uint64
+	if compareContent {
+		var ok bool
+		if k0, v0, ok = x.snapshot(); !ok {
+			return
+		}
+	}
+	// scribble: after the call returned the buffers are the caller's again (high, low and
+	// zero patterns: a retained bound may only show when the new content sorts lower)
+	pat := rng.Pick(r, []byte{0xEE, 0xEE, 0x01, 0x00})
 	for i := range arrs {
 		for j := range arrs[i] {
-			arrs[i][j] = 0xEE
+			arrs[i][j] = pat
+		}
+	}
+	if compareContent {
+		k1, v1, ok := x.snapshot()
+		if !ok {
+			return
+		}
+		x.res.Inc("content_before_vs_after_scribble")
+		same := len(k0) == len(k1)
+		for i := 0; same && i < len(k0); i++ {
+			same = bytes.Equal(k0[i], k1[i]) && v0[i] == v1[i]
+		}
+		if !same {
+			x.fail("overwriting the key buffer after "+what+" returned changed what the tree holds", fmt.Sprintf("%d pairs: %q", len(k0), k0), fmt.Sprintf("%d pairs: %q", len(k1), k1))
 		}
 	}
 }
@@ -215,6 +306,51 @@ func (x *c13run) verifyContent(full bool) {
 	x.res.Inc("content_verifications")
 	if bad != "" {
 		x.fail("after the caller reused its key buffers the tree's content changed", fmt.Sprintf("%d keys as in the reference; e.g. element %d = %q", x.m.Len(), min(i, max(x.m.Len()-1, 0)), keyAt(x.m, i)), bad)
+		return
+	}
+	x.seqMonitors()
+}
+
+// insertEquivalent (collation trees): a key the collator cannot tell from a stored one (the
+// other Unicode normal form). Which spelling the tree then holds is not C13's business; that
+// it does not change when the caller reuses the buffer is. The model is re-read from the tree.
+func (x *c13run) insertEquivalent(r *rng.R) {
+	if x.m.Len() == 0 {
+		return
+	}
+	st := x.m.At(r.Intn(x.m.Len())).Key
+	eq := norm.NFD.Bytes(st)
+	if bytes.Equal(eq, st) {
+		eq = norm.NFC.Bytes(st)
+	}
+	if bytes.Equal(eq, st) {
+		x.res.Inc("equivalent_spelling_none")
+		return
+	}
+	x.val++
+	v := x.val
+	x.callWithCanaryOpt(r, fmt.Sprintf("Insert(%q) [other normal form of stored %q]", eq, st), [][]byte{eq}, false, true, func(ks [][]byte) { x.t.Insert(ks[0], v) })
+	if x.dead {
+		return
+	}
+	x.res.Inc("equivalent_spelling_inserts")
+	ks, vs, ok := x.snapshot()
+	if !ok {
+		return
+	}
+	m := ref.New(x.tr.k.Cmp, x.tr.k.ID)
+	for i := range ks {
+		m.Put(ks[i], vs[i])
+	}
+	if m.Len() != len(ks) {
+		// the tree holds two keys the reference cannot tell apart: outside what this model can follow
+		x.res.Inc("equivalent_spelling_model_ambiguous")
+		x.dead = true
+		return
+	}
+	x.m = m
+	if x.sess != nil {
+		x.sess.SetModel(m)
 	}
 }
 
@@ -232,7 +368,7 @@ func (x *c13run) insert(r *rng.R, key []byte) {
 	}
 	x.val++
 	v := x.val
-	x.callWithCanary(r, fmt.Sprintf("Insert(%q)", key), [][]byte{key}, false, func(ks [][]byte) { x.t.Insert(ks[0], v) })
+	x.callWithCanaryOpt(r, fmt.Sprintf("Insert(%q)", key), [][]byte{key}, false, x.m.Len() <= 48 && r.Chance(1, 3), func(ks [][]byte) { x.t.Insert(ks[0], v) })
 	if !x.dead {
 		x.m.Put(append([]byte{}, key...), v)
 	}
@@ -241,6 +377,7 @@ func (x *c13run) insert(r *rng.R, key []byte) {
 func c13History(res *ev.Result, unit string, tr c13tree, r *rng.R, nOps int) {
 	x := &c13run{res: res, unit: unit, tr: tr, m: ref.New(tr.k.Cmp, tr.k.ID)}
 	x.t = tr.k.New()
+	x.attach(r)
 	pool := tr.k.Pool(r, 6+r.Intn(60))
 	pool = append(pool, []byte{}) // the empty key (with spare capacity) matters
 	pick := func() []byte {
@@ -255,6 +392,10 @@ func c13History(res *ev.Result, unit string, tr c13tree, r *rng.R, nOps int) {
 	for i := 0; i < nOps && !x.dead; i++ {
 		switch r.Intn(10) {
 		case 0, 1, 2, 3:
+			if tr.coll && r.Chance(1, 8) {
+				x.insertEquivalent(r)
+				continue
+			}
 			x.insert(r, rng.Pick(r, pool))
 		case 4:
 			key := pick()
@@ -391,6 +532,7 @@ func c13History(res *ev.Result, unit string, tr c13tree, r *rng.R, nOps int) {
 func c13Scanner(res *ev.Result, unit string, tr c13tree, r *rng.R, n int) {
 	x := &c13run{res: res, unit: unit, tr: tr, m: ref.New(tr.k.Cmp, tr.k.ID)}
 	x.t = tr.k.New()
+	x.attach(r)
 	pool := tr.k.Pool(r, 8+r.Intn(200))
 	// equal-length families make "same buffer, same length, other content" frequent
 	for i := 0; i < 30; i++ {
